@@ -183,6 +183,8 @@ def parse_trace(path, slot, proj):
     subs = [(slot.home, "$HOME"), (slot.proj(proj), "$WS"), (slot.target(proj), "$TARGET"), (slot.dir, "$SLOT")]
 
     def norm(p):
+        if p.startswith("/"):
+            p = os.path.normpath(p)  # `-o ../ws/sdk` and friends
         for a, b in subs:
             p = p.replace(a, b)
         return p
@@ -270,6 +272,10 @@ def cache_rows(home):
 # ---------------------------------------------------------------------------------- history runner
 
 
+# wall-clock limit of one pavexc execution (a normal one takes 2-40 s)
+DEFAULT_TIMEOUT = float(os.environ.get("COMPSIM_TIMEOUT", "600"))
+
+
 class HistoryRun:
     """Executes one history (a list of primitive/composite steps) in a slot."""
 
@@ -342,7 +348,8 @@ class HistoryRun:
         if os.path.exists(trace):
             os.unlink(trace)
         bp_path = os.path.join(self.w.bps_dir, step["bp"] + ".ron")
-        argv = ["setarch", "x86_64", "-R", self.w.pavexc, "generate", "-b", bp_path, "-o", "sdk"]
+        argv = ["setarch", "x86_64", "-R", self.w.pavexc, "generate", "-b", bp_path, "-o",
+                step.get("out", "sdk").replace("$WS", ws)]
         if step.get("diag"):
             argv += ["--diagnostics", os.path.join(ws, step["diag"])]
         if step["mode"] == "check":
@@ -372,7 +379,7 @@ class HistoryRun:
             env["VERIF_FAULT_PATH"] = {"cache": "/.pavex/", "project": ws + "/"}[fault["phase"]]
         before = snapshot_ws(ws)
         rows_before = None
-        timeout = float(step.get("timeout", 600))
+        timeout = float(step.get("timeout", DEFAULT_TIMEOUT))
         out_p = os.path.join(self.slot.dir, f"out-{self.seq}.txt")
         err_p = os.path.join(self.slot.dir, f"err-{self.seq}.txt")
         t0 = time.time()
@@ -492,6 +499,14 @@ class HistoryRun:
             return
         os.makedirs(os.path.join(sdk, "src"))
         data = {rel: self.w.golden_bytes(step["bp"], toggles, rel) for rel in ("sdk/Cargo.toml", "sdk/src/lib.rs", "Cargo.toml")}
+        if state == "broken_manifest":
+            # a botched merge: conflict markers in the SDK manifest, and the member entry that the
+            # first generation added to the workspace manifest is gone (so cargo does not load it)
+            lines = data["sdk/Cargo.toml"].decode().split("\n")
+            at = 1 + step.get("flip", {}).get("draw", 0) % max(1, len(lines) - 1)
+            lines[at:at] = ["<<<<<<< HEAD", 'edition = "2021"', "=======", 'edition = "2024"', ">>>>>>> topic"]
+            data["sdk/Cargo.toml"] = "\n".join(lines).encode()
+            data["Cargo.toml"] = self.w.base["Cargo.toml"]
         if state == "flipped":
             rel = step["flip"]["file"]
             if rel == "sdk/src/lib.rs":
